@@ -200,27 +200,23 @@ public:
         m_listHead(0),
         m_freeListHeadPtr(0)
     {
+        initListHead();
     }
 
     ~XalanList()
     {
-        if (m_listHead != 0)
+        iterator pos = begin();
+        while (pos != end())
         {
-            iterator pos = begin();
-            while (pos != end())
-            {
-                destroyNode(pos++.node()); 
-            }
+            destroyNode(pos++.node()); 
+        }
 
-            Node * freeNode = m_freeListHeadPtr;
-            while (freeNode != 0)
-            {
-                Node * nextNode = freeNode->next;
-                deallocate(freeNode);
-                freeNode = nextNode;
-            }
-
-            deallocate(m_listHead);
+        Node * freeNode = m_freeListHeadPtr;
+        while (freeNode != 0)
+        {
+            Node * nextNode = freeNode->next;
+            deallocate(freeNode);
+            freeNode = nextNode;
         }
     }
     
@@ -421,8 +417,20 @@ public:
     void swap(ThisType& theRHS)
     {
         std::swap(m_memoryManager, theRHS.m_memoryManager);
-        std::swap(m_listHead, theRHS.m_listHead);
         std::swap(m_freeListHeadPtr, theRHS.m_freeListHeadPtr);
+
+        // The list head is part of the list object, so exchange
+        // the chains of nodes and re-attach them to the heads.
+        Node* const     thisFirst = m_listHead->next;
+        Node* const     thisLast = m_listHead->prev;
+        const bool      thisEmpty = thisFirst == m_listHead;
+
+        Node* const     rhsFirst = theRHS.m_listHead->next;
+        Node* const     rhsLast = theRHS.m_listHead->prev;
+        const bool      rhsEmpty = rhsFirst == theRHS.m_listHead;
+
+        attachChain(rhsEmpty, rhsFirst, rhsLast);
+        theRHS.attachChain(thisEmpty, thisFirst, thisLast);
     }
 
 
@@ -476,14 +484,39 @@ protected:
 
     Node& getListHead()
     {
-        if (0 == m_listHead)
+        return *m_listHead;
+    }
+
+    void
+    initListHead()
+    {
+        // The head node lives inside the list, so that no
+        // member function, const or not, needs to allocate
+        // memory to produce begin() or end().  Its value is
+        // never constructed.
+        m_listHead = reinterpret_cast<Node*>(&m_listHeadStorage);
+        m_listHead->next = m_listHead;
+        m_listHead->prev = m_listHead;
+    }
+
+    void
+    attachChain(
+            bool    isEmpty,
+            Node*   first,
+            Node*   last)
+    {
+        if (isEmpty == true)
         {
-            m_listHead = allocate(1);
             m_listHead->next = m_listHead;
             m_listHead->prev = m_listHead;
         }
-
-        return *m_listHead;
+        else
+        {
+            m_listHead->next = first;
+            m_listHead->prev = last;
+            first->prev = m_listHead;
+            last->next = m_listHead;
+        }
     }
 
     Node& getListHead() const
@@ -519,6 +552,13 @@ protected:
     Node*               m_listHead;
 
     Node*               m_freeListHeadPtr;
+
+    union
+    {
+        char    m_bytes[sizeof(Node)];
+        void*   m_pointerAlignment;
+        double  m_doubleAlignment;
+    }                   m_listHeadStorage;
 
 private:
     // not defined
